@@ -101,15 +101,30 @@ func init() {
 	}
 	Registry["C03"] = func(tier string) []Scenario {
 		var out []Scenario
-		comps := []bs.CompressionType{bs.CompressionSnappy}
+		// "legacy": uncompressed blocks whose metadata carries the pre-normalisation empty
+		// compression value (files written before the field existed)
+		comps := []bs.CompressionType{bs.CompressionSnappy, "legacy"}
 		if tier == "thorough" {
-			comps = []bs.CompressionType{bs.CompressionSnappy, bs.CompressionNone, bs.CompressionZstd}
+			comps = []bs.CompressionType{bs.CompressionSnappy, "legacy", bs.CompressionNone, bs.CompressionZstd}
 		}
 		for _, comp := range comps {
 			name := "pool-" + string(comp)
 			fixtureCompression[name] = comp
+			setup := buildFixture(name, rows)
+			if comp == "legacy" {
+				fixtureCompression[name] = bs.CompressionNone
+				base := setup
+				setup = func() {
+					base()
+					for _, f := range fixtures[name] {
+						for i := range f.md.DataBlocks {
+							f.md.DataBlocks[i].Compression = ""
+						}
+					}
+				}
+			}
 			fixtureHits[name] = 8
-			s := Scenario{Prop: "C03", Name: name + "-q2", Root: c03Root(name, 2), Setup: buildFixture(name, rows), Horizon: time.Second,
+			s := Scenario{Prop: "C03", Name: name + "-q2", Root: c03Root(name, 2), Setup: setup, Horizon: time.Second,
 				Sched: 2, DelayBound: true, PoolPoints: true}
 			if tier == "thorough" {
 				s.Sched = 3
